@@ -77,6 +77,9 @@ type CoreOp struct {
 	// AtLatest makes the caller ask for "the latest height" (height 0) instead of a number; Core
 	// then asks the provider for the latest height, possibly more than once during one request,
 	// and the provider answers with tip+LatestSeq[i] on its i-th answer (the last one repeats).
+	// Forge > 0 (lightblock calls): the light-block peers answer that many requests for the
+	// height with a forged light block; the caller asks for the height several times in a row.
+	Forge     int   `json:"forge,omitempty"`
 	AtLatest  bool  `json:"at_latest,omitempty"`
 	LatestSeq []int `json:"latest_seq,omitempty"`
 }
@@ -135,6 +138,10 @@ func (CoreEngine) Generate(r *core.Rand, tier core.Tier) *core.Scenario {
 		if r.Chance(1, 3) {
 			op.H = r.Intn(4) // towards the tip (selector counts down from the tip)
 		}
+		if op.Call == "lightblock" && r.Chance(1, 3) {
+			op.Forge = r.Range(1, 4)
+			op.H = r.Intn(3) // at or just below the tip: mostly not verified yet
+		}
 		if op.Call == "latest" {
 			op.Latest = r.Pick([]int{4, 2, 1, 1}) * (r.Intn(5) - 2)
 			if r.Chance(1, 8) {
@@ -176,6 +183,10 @@ type lbNet struct {
 	c      *chain
 	tip    int
 	served int
+	// forge: height -> number of requests that are still answered with a forged light block (a
+	// header with another application hash under the honest commit): a lying light-block peer.
+	forge  map[int64]int
+	forged int
 }
 
 func copyLightBlock(lb *cmttypes.LightBlock) *cmttypes.LightBlock {
@@ -207,7 +218,14 @@ func (n *lbNet) LightBlock(_ context.Context, height int64) (*cmttypes.LightBloc
 	for i := 0; i <= n.tip; i++ {
 		if n.c.hs[i].lb.Height == height {
 			n.served++
-			return copyLightBlock(n.c.hs[i].lb), nil
+			lb := copyLightBlock(n.c.hs[i].lb)
+			if n.forge[height] > 0 {
+				n.forge[height]--
+				n.forged++
+				lb.Header.AppHash = append([]byte{}, lb.Header.AppHash...)
+				lb.Header.AppHash[0] ^= 0x5a
+			}
+			return lb, nil
 		}
 	}
 	if height > n.c.hs[n.tip].lb.Height {
@@ -337,6 +355,10 @@ type coreRun struct {
 	lc   *light.Client
 	core *sl.Core
 	ctx  context.Context
+
+	// trustHeight is the height of the configured trust root (the lazily initialised light client
+	// knows no trusted height before its first use).
+	trustHeight int64
 
 	proofs    map[int][][]byte
 	honestOK  int
@@ -756,6 +778,50 @@ func (cr *coreRun) step(i int, op *CoreOp) *core.Violation {
 
 	case "lightblock":
 		h := c.hs[hi].lb.Height
+		if op.Forge > 0 && known(hi) && h > cr.lastTrusted() && h > cr.trustHeight {
+			// (Only for heights above the latest trusted one, i.e. forward verification. CometBFT's
+			// BACKWARD verification re-fetches the target height while walking the hash chain and
+			// checks the re-fetched header, but then stores the block it fetched FIRST: a peer that
+			// answers two consecutive requests for the same height differently gets an unverified
+			// header trusted. That is the dependency's code, not the repository's; observed with this
+			// fault kind, recorded in DESIGN.md, not generated.)
+			// Lying light-block peers: the same height is asked for several times in a row; a block
+			// that failed verification must never come back as verified.
+			cr.net.forge[h] = op.Forge
+			before := cr.net.forged
+			for attempt := 0; attempt < 3; attempt++ {
+				var got *consensusAPI.LightBlock
+				err, v := cr.call(i, op, "GetLightBlock", func() (e error) { got, e = cr.core.GetLightBlock(cr.ctx, h); return })
+				if v != nil {
+					return v
+				}
+				st.Event("step %d lightblock forged-peers h=%d attempt=%d %s", i, h, attempt, errStr(err))
+				if err != nil {
+					st.Inc("probe.core.forged_light_block_refused")
+					continue
+				}
+				dec, derr := light.DecodeLightBlock(got)
+				if derr != nil || got.Height != h || !bytes.Equal(dec.Hash(), c.hs[hi].lb.Hash()) {
+					return cviol("lightblock-wrong", "lightblock-wrong forged", fmt.Sprintf("step %d: Core.GetLightBlock(%d), attempt %d while light-block peers serve a forged block for that height: a light block other than the chain's was returned as verified (decode error %v)", i, h, attempt+1, derr))
+				}
+				// And data bound to it: the block of that height.
+				var blk *consensusAPI.Block
+				if err, v := cr.call(i, op, "GetBlock", func() (e error) { blk, e = cr.core.GetBlock(cr.ctx, h); return }); v != nil {
+					return v
+				} else if err == nil {
+					if bound, _, _ := diffBlock(projBlock(c.hs[hi].block), projBlock(blk)); len(bound) > 0 {
+						return cviol("block-accepted-altered", "block-accepted-altered "+bound[0], fmt.Sprintf("step %d: after forged light blocks for height %d Core.GetBlock returned a block that differs in %v", i, h, bound))
+					}
+				}
+			}
+			delete(cr.net.forge, h)
+			if cr.net.forged > before {
+				cr.effective++
+				st.Inc("fault.core.forged-light-block-served")
+			}
+			accepted("returned_or_refused_under_forged_light_blocks")
+			return nil
+		}
 		var got *consensusAPI.LightBlock
 		err, v := cr.call(i, op, "GetLightBlock", func() (e error) { got, e = cr.core.GetLightBlock(cr.ctx, h); return })
 		if v != nil {
@@ -884,7 +950,7 @@ func (CoreEngine) Execute(sc *core.Scenario, st *core.Stats) (*core.Violation, b
 	if k.Tip < 0 || k.Tip >= n || k.Trust < 0 || k.Trust > k.Tip {
 		core.Harnessf("stateless-core: bad knobs trust=%d tip=%d heights=%d", k.Trust, k.Tip, n)
 	}
-	net := &lbNet{c: c, tip: k.Tip}
+	net := &lbNet{c: c, tip: k.Tip, forge: map[int64]int{}}
 	prov := &byzProvider{c: c, net: net}
 	trusted := c.hs[k.Trust].lb
 	lc, err := light.VerifNewClient(c.chainID, cmtlight.TrustOptions{Period: 100 * 365 * 24 * time.Hour, Height: trusted.Height, Hash: trusted.Hash()},
@@ -894,7 +960,7 @@ func (CoreEngine) Execute(sc *core.Scenario, st *core.Stats) (*core.Violation, b
 	}
 	ctx, cancel := context.WithCancel(context.Background())
 	defer cancel()
-	cr := &coreRun{c: c, st: st, net: net, prov: prov, lc: lc, ctx: ctx, proofs: map[int][][]byte{},
+	cr := &coreRun{c: c, st: st, net: net, prov: prov, lc: lc, ctx: ctx, proofs: map[int][][]byte{}, trustHeight: trusted.Height,
 		core: sl.NewCore(prov, lc, sl.Config{ChainContext: c.chainID, GenesisHeight: k.Base})}
 	st.Event("chain heights=%d first=%d trust=%d tip=%d", n, c.hs[0].lb.Height, trusted.Height, c.hs[k.Tip].lb.Height)
 	for i, raw := range sc.Ops {
